@@ -569,7 +569,8 @@ impl<'s, I: Kind<'s>, R: Er<'s, I>> Bld<'s, I, R> {
                     self.sink(rep, &r.sink)
                 }
                 2 => {
-                    let rep = item.repeated().configure(move |c, ctx: &Val| c.at_least(lo).at_most(ctx_num(ctx)));
+                    // static lower bound, upper bound from the context
+                    let rep = item.repeated().at_least(lo).configure(move |c, ctx: &Val| c.at_most(ctx_num(ctx)));
                     self.sink(rep, &r.sink)
                 }
                 _ => {
@@ -588,11 +589,21 @@ impl<'s, I: Kind<'s>, R: Er<'s, I>> Bld<'s, I, R> {
         match &r.sep {
             None => {
                 if r.cfg {
-                    let rep = item.repeated().configure(move |c, _ctx: &Val| {
-                        let c = c.at_least(lo);
+                    // the same bounds, split between the static builder and the configuration closure in
+                    // four ways (all equivalent by the documentation of configure)
+                    let mode = (lo + hi.unwrap_or(7)) % 4;
+                    let mut stat = item.repeated();
+                    if mode == 1 || mode == 3 {
+                        stat = stat.at_least(lo);
+                    }
+                    if let (Some(h), true) = (hi, mode == 2 || mode == 3) {
+                        stat = stat.at_most(h);
+                    }
+                    let rep = stat.configure(move |c, _ctx: &Val| {
+                        let c = if mode == 0 || mode == 2 { c.at_least(lo) } else { c };
                         match hi {
-                            Some(h) => c.at_most(h),
-                            None => c,
+                            Some(h) if mode == 0 || mode == 1 => c.at_most(h),
+                            _ => c,
                         }
                     });
                     self.sink(rep, &r.sink)
@@ -666,8 +677,18 @@ impl<'s, I: Kind<'s>, R: Er<'s, I>> Bld<'s, I, R> {
                 custom::<_, I, Val, Ex<R>>(move |inp| {
                     let before = inp.cursor();
                     let mut s = String::new();
-                    for _ in 0..take {
-                        match inp.next() {
+                    for i in 0..take {
+                        // every second token is taken with peek() + skip() instead of next()
+                        let t = if i % 2 == 1 {
+                            let t = inp.peek();
+                            if t.is_some() {
+                                inp.skip();
+                            }
+                            t
+                        } else {
+                            inp.next()
+                        };
+                        match t {
                             Some(t) => s.push(t.to_char()),
                             None => {
                                 return Err(R::custom(inp.span_since(&before), format!("C{}:eof", tag)))
